@@ -63,6 +63,8 @@ def gen_plan(profile, seed, tier="quick"):
              # new numeric constants of the library (thresholds, sizes) are divided by
              # 2**const_shift in a third of the runs
              "const_shift": _pick(rng, [0, 0, 0, 0, 8, 12, 16]),
+             # pre-emption also at the return of every C call made by a library frame
+             "fine": rng.random() < 0.25,
              "simple_waves": rng.random() < 0.3}
     # module slots: groups of a forward family and (where one exists) its inverse
     fams = list(catalog.FWD_FAMILIES)
